@@ -1,1 +1,2 @@
 SHIMS_ub += safeint_check
+VDRIVER := build/vd/vdriver
